@@ -2,7 +2,7 @@
 EXTENDS CoNodeGen
 \* ---- C09 ----
 L09 == {<<"nmt", cs, t>> : cs \in {1, 2, 128, 129, 130, 3, 0}, t \in {0, 5, 6}}
-       \cup {<<"setmode", m>> : m \in {2, 3, 4}}
+       \cup {<<"setmode", m>> : m \in {1, 2, 3, 4}} \cup {<<"bootup">>}      \* (1 = INITIALISATION: the application holds the node there, CONmtBootup ends it)
        \cup {<<"sdord", 4096, 0>>, <<"sdowr", 8448, 0, <<7>>>>, <<"rpdo", 9>>, <<"rpdo", 3>>, <<"sync">>, <<"lss">>, <<"other", 291>>, <<"other", 1413>>,
              <<"hb", 10, 5>>, <<"hb", 11, 5>>, <<"emcyset">>, <<"emcyclr">>, <<"trig">>, <<"tick">>, <<"getmode">>}
 P09 == << <<"getmode">>, <<"sdord", 8448, 0>>, <<"sdord", 8449, 0>>, <<"rpdo", 77>>, <<"trig">>, <<"other", 291>>, <<"emcyset">>, <<"emcyclr">>,
@@ -10,7 +10,7 @@ P09 == << <<"getmode">>, <<"sdord", 8448, 0>>, <<"sdord", 8449, 0>>, <<"rpdo", 7
 \* ---- C10 ----
 L10 == {<<"tick">>, <<"nmt", 1, 0>>, <<"nmt", 2, 5>>, <<"nmt", 128, 5>>, <<"nmt", 130, 5>>, <<"nmt", 129, 0>>}
        \cup {<<"sdowr", 4119, 0, <<t, 0>>>> : t \in {0, 1, 2, 3}} \cup {<<"apihb", 2>>, <<"apihb", 0>>, <<"apihb", 4>>}
-       \cup {<<"hb", 10, 5>>, <<"trig">>, <<"sdord", 4119, 0>>}
+       \cup {<<"hb", 10, 5>>, <<"trig">>, <<"sdord", 4119, 0>>, <<"setmode", 1>>, <<"bootup">>}
 P10 == << <<"sdord", 4119, 0>>, <<"tick">>, <<"tick">>, <<"tick">>, <<"tick">>, <<"tick">>, <<"tick">>, <<"tick">>, <<"tick">>, <<"tick">> >>
 \* ---- C11 ----
 HcW(k, node, time) == <<"sdowr", 4118, k, <<time % 256, time \div 256, node, 0>>>>
